@@ -70,6 +70,10 @@ func (e *Engine) verifyFunc(blk *Block, prop string) (fv *FuncVer, err error) {
 		env.vars[k] = v
 	}
 	for _, ax := range e.axioms {
+		// axioms are facts about one package's data and spec functions
+		if e.pkgOfBlock(ax) != fn.Pkg.Pkg {
+			continue
+		}
 		aenv := fv.newEnv(st, old)
 		aenv.pkg = e.pkgOfBlock(ax)
 		st.assume(fv.evalBool(aenv, ax.Body))
